@@ -147,9 +147,11 @@ func (fx *FX) runTop() (errmsg string) {
 					rs = append(rs, r)
 				}
 			}
-			for k, v := range fx.contractNames(c, nil, fn.Signature, nil, rs) {
+			for k, v := range fx.contractNames(c, nil, fn.Signature, nil, rs, nil) {
 				env.names[k] = v
 			}
+			fx.addAllLoopNames(fr, env)
+			env.goal = true
 			for j, cl := range c.Ensures {
 				g := fx.evalBool(env, cl.Expr)
 				fx.oblige(x.st, "post", fmt.Sprintf("ensures#%d%s@ret#%d", j+1, lbl(cl), x.idx+1), cl.Text, g, x.pos, propsOr(cl.Props, c.Props))
